@@ -312,6 +312,14 @@ def rule_k4(chk: Check, F, ix: Index):
                 f"tab stops are every {F.values.get('tabsize')} columns; CPython uses 8")
     f = ix.get("next_statement")
     loop = next((n for n in own_nodes(f.node) if isinstance(n, ast.While) and "state.pos < state.max" in norm_stmt(n.test)), None)
+    if loop is None:
+        # the measuring loop may live in a function split off from next_statement: the scanner function that does tab-stop arithmetic
+        for q2, f2 in sorted(ix.funcs.items()):
+            if f2.rel == repo.TOKENIZE and "tabsize" in norm_stmt(f2.node) and f2.node.name != "next_statement":
+                cand = next((n for n in own_nodes(f2.node) if isinstance(n, ast.While) and "state.pos < state.max" in norm_stmt(n.test)), None)
+                if cand is not None:
+                    f, loop = f2, cand
+                    break
     CH = "state.line[state.pos]"
     if loop is None:
         # the same walk written over the characters themselves: `for ch in state.line[...]` (the position advances in the body)
